@@ -33,7 +33,7 @@ ValsOf(k) ==
     [] k = "cache" -> {NoneV, S("vfx-alt")}
     \* "/S" = the harness's sandbox: /S/d1, /S/d2 exist, /S/missing does not, /S/file.txt is a file
     [] k = "dirs" -> {L(<<>>), L(<<"/S/d1">>), L(<<"path:/S/d1", "/S/missing">>),
-                      L(<<"tuple:pre:/S/d2", "/S/file.txt">>), L(<<"rel/d">>)}
+                      L(<<"tuple:pre:/S/d2", "/S/file.txt">>), L(<<"/S/d1", "path:/S/d2">>), L(<<"rel/d">>)}
                      \cup (IF Rich THEN {L(<<"path:/S/missing">>), L(<<"/S/d2", "tuple:p:rel">>)} ELSE {})
     [] k = "app_dirs" -> {L(<<>>), L(<<"ui">>), L(<<"components", "nope">>)}
     [] k = "libraries" -> {L(<<>>), L(<<"vfx.lib1", "vfx.lib2">>)}
@@ -140,6 +140,8 @@ SNext == /\ \/ \E k \in GKeys : \E v \in ValsOf(k) : ~Given(user, k) /\ Set(k, v
 SSpec == MCInit /\ [][SNext]_mcVars
 
 CompileCounts == {1, 3, 140, 160}
+ProbeDirs == {"components", "ui"}          \* [app1]/<d> holds an importable python file
+WatchTarget == "/S/app1/components"        \* a file below it is reported as changed
 MayFail == \/ \E k \in Accessors : \E x \in Adm(user, form, base, k) : x.t = "error"
            \/ DirsMayFail(user, form, base)
 ExportStartup ==
@@ -148,8 +150,8 @@ ExportStartup ==
        multiline |-> Multiline(user, form, base),
        cached |-> {[n |-> n, c |-> CachedAfter(user, form, base, n)] : n \in CompileCounts},
        fresh |-> FreshRegistryBehavior(user, form, base),
-       watch |-> WatchesFiles(user, form, base),
-       autod |-> Autodiscovers(user, form, base),
+       watch |-> ReloadsOnChangeIn(user, form, base, FS, Apps, WatchTarget),
+       autod |-> AutodiscoverImports(user, form, base, ProbeDirs),
        libs |-> LibrariesLoaded(user, form, base),
        mayfail |-> MayFail,
        devkey |-> DevKey(user, form, "template_cache_size"),
